@@ -51,7 +51,7 @@ theorem addLineno_curBuf (s : AState) (d : Int) : (s.addLineno cfg d).curBuf = s
     the text handed to the action (`headLen` bytes: trailing context is not consumed) -/
 theorem beginMatch_lnTotal (M : Matcher) (s : AState) (inp : List UInt8) (len rule : Nat) (p : List UInt8)
     (h : s.HasCur) (hp : s.curBuf.pending = inp)
-    (hfit : (cfg.yylmax != 0 && decide (p.length + len ≥ cfg.yylmax)) = false) :
+    (hfit : (cfg.yylmax != 0 && decide (p.length + M.fitLen rule len inp ≥ cfg.yylmax)) = false) :
     lnTotal (beginMatch M cfg s inp len rule p) = lnTotal s := by
   unfold lnTotal beginMatch
   simp only [hfit, Bool.false_eq_true, if_false]
